@@ -803,14 +803,14 @@ SETTER_SPECS = ["none", "true", "false", "int0", "int1", "int2", "neg1", "float0
 
 def cases(rng, tier):
     quick = tier == "quick"
-    yield from sweep_cases(rng, 6 if quick else 60)
-    for _ in range(2500 if quick else 60000):
+    yield from sweep_cases(rng, 8 if quick else 60)
+    for _ in range(4000 if quick else 60000):
         mesh = small_mesh(rng)
         leaves = gen_leaves(rng, rng.choice([1, 2, 2, 3]))
         steps = gen_program(rng, mesh, leaves, rng.choice([2, 3, 3, 4, 5]))
         if steps:
             yield dict(kind="prog", mesh=mesh, leaves=leaves, steps=steps, sub=rng.getrandbits(32), why="random")
-    for rep in range(8 if quick else 150):
+    for rep in range(10 if quick else 150):
         for spec in SETTER_SPECS:
             mesh = small_mesh(rng)
             yield dict(kind="setter", mesh=mesh, nvdim=rng.choice([1, 2, 3]), spec=spec, ctor=rng.random() < 0.4,
